@@ -86,19 +86,43 @@ fn try_ast<Ctx: ScriptContext>(
     out: &mut Vec<Ms<Ctx>>,
 ) {
     att.0.fetch_add(1, Ordering::Relaxed);
-    match att.1 {
-        None => {
-            if let Ok(ms) = Miniscript::from_ast(t) {
-                out.push(Arc::new(ms));
+    // a constructor that panics is a refusal for the enumeration (the term does not exist); the
+    // panic is kept so that the checks which own that question (C05, C11, C12) can report it
+    let tc = t.clone();
+    let r = match crate::common::guard(|| Miniscript::from_ast(tc)) {
+        Ok(r) => r,
+        Err(p) => {
+            if let Ok(mut g) = CONSTRUCTOR_PANICS.lock() {
+                if g.len() < 16 {
+                    // (Debug of a Terminal type-checks it again: guarded too)
+                    let shown = crate::common::guard(|| format!("{:?}", t)).unwrap_or_else(|_| "<a term whose Debug output panics as well>".into());
+                    g.push(format!("from_ast({}) panicked at {}", shown, p));
+                }
             }
+            return;
         }
-        Some(h) => {
-            let r = Miniscript::from_ast(t.clone());
-            h(&t, &r);
-            if let Ok(ms) = r {
-                out.push(Arc::new(ms));
-            }
-        }
+    };
+    if let Some(h) = att.1 {
+        h(&t, &r);
+    }
+    if let Ok(ms) = r {
+        out.push(Arc::new(ms));
+    }
+}
+
+/// Panics of `Miniscript::from_ast` seen by the term explorer (first 16).
+pub static CONSTRUCTOR_PANICS: std::sync::Mutex<Vec<String>> = std::sync::Mutex::new(Vec::new());
+
+/// Report explorer-level constructor panics as violations of `prop` (used by C05 / C12).
+pub fn report_constructor_panics(rep: &crate::common::Report, prop: &str) {
+    let g = CONSTRUCTOR_PANICS.lock().map(|g| g.clone()).unwrap_or_default();
+    for p in g {
+        rep.violation(crate::common::Violation {
+            key: format!("{}|from_ast-panic|{}", prop, p),
+            class: "constructor-panic".into(),
+            what: p.clone(),
+            case: serde_json::json!({"what": p}),
+        });
     }
 }
 
